@@ -100,7 +100,10 @@ ASBUILT = {
 "C11": """* **As built (`props/c11.py`, `monitors.mon_c11`):** loops with 1-8 consumers in all five modes, flow-controlled heat
   exchangers with positive and negative heat, 40 % of them entered against the flow direction (negative reported flow; added
   after seeded change S11), three source kinds, sequential and bidirectional. Q = m cp_mean dT holds to
-  1e-14 relative for exchangers and consumers; loop closure within the cp spread. **Found and fixed:** pump heat
+  1e-14 relative for exchangers and consumers; loop closure within the cp spread. Every 20th case is a transient heat time series
+  with ConstControl profiles on every prescribed consumer quantity (mass flow, heat, temperature difference, return temperature),
+  monitored per step through H1 (duties and set-points; loop closure is no identity while pipes store heat) - added after seeded
+  change R2_C11. **Found and fixed:** pump heat
   `m (cp(T_out) T_out - cp(T_in) T_in)`. **Open finding:** QE_TR consumers in non-bidirectional modes.""",
 "C12": """* **As built (`props/c12.py`, `fingerprint.py`):** the purity contract is evaluated by a sink on H1: a per-column fingerprint
   of every non-underscore entry (tables incl. dtypes, index and row order, fluid property attributes, standard types, user
@@ -122,8 +125,9 @@ ASBUILT = {
 "C14": """* **As built (`props/c14.py`):** exhaustive (both tiers): every default key + `iter` + an unknown key + the two excluded keys x
   {absent, user, call, both}; all 256 presence patterns of {iter, max_iter_hyd, max_iter_therm, max_iter_bidirect} x {user,
   call}; deprecated mode in each layer; the reuse coupling in 8 combinations; the numba fallback by toggling the module flag;
-  300 / 20 000 random full layer assignments; 40 / 600 real pipeflows whose H2 trace must show the resolved tolerances, budget
-  and method. Purity by deep comparison of defaults, user options and call kwargs. **Found and fixed:** documented defaults.""",
+  300 / 20 000 random full layer assignments; 40 / 600 real pipeflows (hydraulics, sequential, bidirectional) in which the first
+  H2 event of **every** Newton stage must show that stage's resolved budget, tolerances and method (all stages since seeded
+  change R2_C14). Purity by deep comparison of defaults, user options and call kwargs. **Found and fixed:** documented defaults.""",
 "C15": """* **As built (`props/c15.py`):** own deep comparison (not `nets_equal`) over four storage paths; custom fluids with all five
   property classes, user pump types, custom columns, None names, geodata, ConstControl controllers, multinets with a P2G
   controller. JSON paths: row order exempt; float differences explainable by the 15-decimal text format and inf -> NaN are
